@@ -6,6 +6,7 @@ CONSTRAINT HWM
 POSTCONDITION Accepted
 CHECK_DEADLOCK FALSE
 INVARIANTS
+  IndexAheadOfState
   RestartSucceedsOrKF
   RecoveredEqualsNoCrash
-  AtLeastOnceInOrder
+  AtLeastOnceInOrderOrKF
